@@ -224,7 +224,7 @@ def main():
     ap.add_argument("cmd"); ap.add_argument("--max", type=int, default=400); ap.add_argument("--workers", type=int, default=7)
     ap.add_argument("--files", default=""); ap.add_argument("--scratch", default="/tmp/ohsl-mut"); ap.add_argument("--seed", type=int, default=1)
     ap.add_argument("--append", action="store_true")
-    ap.add_argument("--redo-weak", action="store_true", help="re-run the mutants that were noticed only as a correspondence break")
+    ap.add_argument("--redo-weak", action="store_true", help="re-run the mutants that survived or were noticed only as a correspondence break")
     ap.add_argument("--batch3", action="store_true", help="only the third batch of operators (numeric literals)")
     ap.add_argument("--batch2", action="store_true", help="only the second batch of operators (statement deletion, index / dimension swaps)")
     a = ap.parse_args()
@@ -242,7 +242,7 @@ def main():
             r = json.loads(l); done.add((r["file"], r["line"], r["op"], r["col"]))
     if a.redo_weak:
         recs = [json.loads(l) for l in open(rp)]
-        weak = {(r["file"], r["line"], r["op"], r["col"]) for r in recs if r.get("status") == "detected" and not r.get("detected_with_input")}
+        weak = {(r["file"], r["line"], r["op"], r["col"]) for r in recs if (r.get("status") == "detected" and not r.get("detected_with_input")) or r.get("status") == "SURVIVED"}
         with open(rp, "w") as f:
             for r in recs:
                 if (r["file"], r["line"], r["op"], r["col"]) not in weak: f.write(json.dumps(r) + "\n")
